@@ -36,7 +36,7 @@ def parse_spans(s):
     return out
 
 
-def parse_markdown(md):
+def parse_markdown(md, cells=None):
     body, summary = [], []
     cur_bucket, cur_sec = None, None
     initially = None
@@ -60,6 +60,8 @@ def parse_markdown(md):
         m = re.match(r"\| (\S+) \| `([^`]*)` \| (.*) \|$", line)
         if m and cur_sec is not None:
             cur_sec["rows"].append([m.group(2), frac_of_text(m.group(1)), parse_spans(m.group(3))])
+            if cells is not None:
+                cells.append((cur_sec["path"], m.group(2), m.group(3)))
             continue
         m = re.match(r"\s*<summary>(-?\d+) initially\.</summary>", line)
         if m:
@@ -71,7 +73,7 @@ def parse_markdown(md):
     return {"body": body, "summary": summary, "initially": initially}
 
 
-def run_real(db, runs, strategy, sorting, grouping, width, earlier=()):
+def run_real(db, runs, strategy, sorting, grouping, width, earlier=(), cells=None):
     from paroxython.recommend_programs import Recommendations
 
     d = copy.deepcopy(db)
@@ -85,7 +87,7 @@ def run_real(db, runs, strategy, sorting, grouping, width, earlier=()):
             md = rec.get_markdown(span_column_width=width, sorting_strategy=sorting, grouping_strategy=grouping)
         except Exception as exc:  # noqa
             return {"exc": type(exc).__name__}, None
-    out = parse_markdown(md)
+    out = parse_markdown(md, cells)
     out["stdout"] = sorted(rec.selected_programs - rec.hidden_programs)
     return out, md
 
@@ -111,6 +113,101 @@ def self_consistency(rep):
     return problems
 
 
+def real_cell(width, spans):
+    from paroxython.goodies import couple_to_string, enumeration_to_txt_factory
+
+    return enumeration_to_txt_factory(width, "_imported_")(", ".join(map(couple_to_string, spans)))
+
+
+def gen_spans(rng):
+    """0–40 spans, magnitudes 1–10^16 (so that chunks longer than the column occur)."""
+    n = rng.choice([0, 1, 2, 3, 5, rng.randint(0, 40), rng.randint(0, 40)])
+
+    def mag():
+        return rng.randint(1, 10 ** rng.choice([1, 1, 2, 3, 4, 6, 9, 13, 16]))
+
+    spans = []
+    for _ in range(n):
+        a = mag()
+        spans.append([a, a if rng.random() < 0.4 else mag()])
+    return spans
+
+
+def check_cell(ctx, drv, width, spans, stream):
+    """One (width, spans): the model's cell text against the real one, byte for byte; the spec's reading of
+    the REAL cell against the spans; the real `textwrap.wrap` lines against the model's; and (exercised only)
+    the unwrap statement when no chunk is longer than the first line."""
+    import textwrap
+
+    from paroxython.goodies import couple_to_string
+
+    real = real_cell(width, spans)
+    model = drv.call("c17.cell", width=width, spans=spans)
+    read = drv.call("c17.parse", cell=real)
+    s = ", ".join(map(couple_to_string, spans))
+    wrapped = len(s) > width
+    long_chunk = any(len(c) > width - 3 for c in s.split())
+    ctx.count(stream, (width, tuple(map(tuple, spans))), nontrivial=wrapped)
+    ctx.dist("cell:" + ("imported" if not spans else "one line" if not wrapped else "wrapped, chunk > line" if long_chunk else "wrapped"))
+    replay = {"kind": "cell", "width": width, "spans": spans, "impl": real, "model": model, "spec(parse of impl)": read}
+    if read != spans or (real == "_imported_") != (not spans):
+        ctx.violations.append({"what": "the Location cell of a row does not read back as the spans of the row (or `_imported_` for a row with spans / spans for an imported taxon)",
+                               "replay": replay, "signature": None})
+        return False
+    if real != model:
+        ctx.broken.append("corr:" + stream)
+        ctx.notes.append(f"cell text differs from the model (reads back correctly): {json.dumps(replay)[:400]}")
+        return False
+    if wrapped:
+        lines = textwrap.wrap(s, width, initial_indent=" " * 3)
+        mlines = drv.call("c17.lines", width=width, s=s)
+        if lines != mlines:
+            ctx.broken.append("corr:" + stream + " (textwrap.wrap lines)")
+            ctx.notes.append(f"textwrap.wrap differs from the model: width={width} s={s!r} impl={lines} model={mlines}")
+            return False
+        if not long_chunk:
+            ctx.count(stream + ": unwrap", None)
+            if " ".join(lines)[3:] != s:   # C17_cell_unwrap_statement, exercised only
+                ctx.broken.append("corr:" + stream + " (unwrap statement)")
+                ctx.notes.append(f"lines joined by one space are not the enumeration: width={width} s={s!r} lines={lines}")
+                return False
+    return True
+
+
+def cell_streams(ctx, drv, rng):
+    # bounded-exhaustive: every width 1..40 on a fixed family (short, wrapped, numbers longer than the column, hyphen cuts)
+    family = [[], [[7, 7]], [[1, 2]], [[12, 15], [12, 12]], [[i, i] for i in range(1, 25)], [[i, i + 3] for i in range(90, 130, 2)],
+              [[10 ** 15, 10 ** 15 + 1]], [[5, 5], [123456789012345, 123456789012345], [6, 6]], [[123, 45678901]],
+              [[10 ** k, 10 ** k] for k in range(0, 17)], [[99, 10 ** 16], [10 ** 16, 10 ** 16], [1, 1]]]
+    for width in range(1, 41):
+        for spans in family:
+            check_cell(ctx, drv, width, spans, "cell (widths 1-40 × fixed family)")
+    n = 3000 if ctx.tier == "quick" else 150000
+    for _ in range(n):
+        width = rng.choice([30, 30, 30, rng.randint(1, 40)])
+        if not check_cell(ctx, drv, width, gen_spans(rng), "cell (random)") and len(ctx.violations) + len(ctx.broken) > 5:
+            break
+
+
+def check_report_cells(ctx, drv, cells, model):
+    """The cells of a real report, read by the spec's `parseCell`, against the spans of the structured rows."""
+    rows = {}
+    for b in model.get("body", []):
+        for sec in b["sections"]:
+            for r in sec["rows"]:
+                rows[(sec["path"], r[0])] = r[2]
+    for (path, taxon, cell) in cells:
+        if (path, taxon) not in rows:
+            continue  # a structural difference, reported by the structured comparison
+        want = rows[(path, taxon)]
+        read = drv.call("c17.parse", cell=cell)
+        ctx.count("cells of the real reports", (cell,), nontrivial=bool(want))
+        if read != want or (cell == "_imported_") != (not want):
+            if sum(1 for v in ctx.violations if v.get("replay", {}).get("kind") == "cell") < 3:
+                ctx.violations.append({"what": f"the Location cell of `{taxon}` in program {path} does not read back as the spans of the row",
+                                       "replay": {"kind": "cell", "spans": want, "impl": cell, "spec(parse of impl)": read}, "signature": None})
+
+
 def run(ctx):
     core.prove(ctx)
     core.import_repo()
@@ -132,8 +229,11 @@ def run(ctx):
             # one object rendered several times (seeded change C17-j: a rendering re-ordered the assessed programs in place)
             earlier = [[rng.choice(["by_cost_and_sloc", "lexicographic"]), rng.choice(["by_cost_bucket", "none"])]
                        for _ in range(rng.choice([0, 0, 1, 1, 2]))]
-            impl, md = run_real(db, runs, strategy, sorting, grouping, width, earlier)
+            cells = []
+            impl, md = run_real(db, runs, strategy, sorting, grouping, width, earlier, cells)
             model = drv.call(**model_request(db, runs, strategy, sorting, grouping))
+            if "exc" not in impl and "exc" not in model:
+                check_report_cells(ctx, drv, cells, model)
             ctx.dist(f"earlier_renderings={len(earlier)}")
             if "exc" in model:
                 model = {"exc": model["exc"]}
@@ -157,6 +257,7 @@ def run(ctx):
                     })
             if len(ctx.cov["samples"]) < 2 and nt and len(db["programs"]) <= 3:
                 ctx.sample({"runs": runs, "strategy": strategy, "impl_report": impl})
+        cell_streams(ctx, drv, rng)
         # cost_bucket on a grid of dyadic rationals
         from paroxython.goodies import cost_bucket
 
@@ -177,15 +278,23 @@ def run(ctx):
         "random well-formed databases (varying sloc) × 1-3 run_pipeline calls of 0-4 commands on ONE Recommendations × both cost strategies × both "
         "sorting strategies × grouping on/off × span column width 30 / unbounded, after 0-2 earlier renderings of the same object under other options; the Markdown is parsed back (bucket headings and counts, program "
         "sections in order with path and cost, table rows with taxon, cost, spans/_imported_, summary lines) and compared with the Lean structured "
-        "report; plus cost_bucket on a grid of 12k dyadic rationals. Non-trivial = at least one section and some command or hidden program."
+        "report; every Location cell of these real reports is read by the spec's parseCell (Lean) and compared with the spans of the row; "
+        "cell streams: the text of the cell computed by the Lean model (couple_to_string, join, textwrap.wrap, template) against the real "
+        "enumeration_to_txt_factory(width, '_imported_') BYTE FOR BYTE, the real textwrap.wrap lines against the model's, and parseCell of the real cell "
+        "against the spans, on widths 1-40 × a fixed family and on random lists of 0-40 spans of magnitudes up to 10^16 (width 30 most frequent); "
+        "plus cost_bucket on a grid of 12k dyadic rationals. Non-trivial = at least one section and some command or hidden program (reports), a wrapped cell (cells)."
     )
     ctx.cov["trusted_base"] = TRUST + [
-        "the Markdown parser of this harness (slugs, gutter and wrapping are outside the model)",
+        "the Markdown parser of this harness for headings, table rows and summary lines (slugs and the line-number gutter are outside the model)",
+        "the Lean model of textwrap.wrap (CPython 3.12 _split/_wrap_chunks/_handle_long_word on the alphabet digits - , space) is tied to the real "
+        "textwrap by correspondence only (byte-for-byte on generated span lists); the theorems are about that model",
         "math.log2 in cost_bucket is compared on a grid only; float corner cases near 2^k for k ≥ 12 are outside the envelope",
     ]
     ctx.cov["proved"] = ["C17_membership", "C17_bucket", "C17_bucket_contains", "C17_order", "C17_rows", "C17_total", "C17_summary",
-                         "C17_summary_fresh", "C17_stdout", "C17_order_across", "C17_order_across_assess"]
-    ctx.cov["exercised_only"] = ["rendering: slugs, line-number gutter, wrapping of long span lists"]
+                         "C17_summary_fresh", "C17_stdout", "C17_order_across", "C17_order_across_assess", "C17_cell_roundtrip", "C17_cell_imported",
+                         "C17_cell_not_imported", "C17_cell_wrap_keeps_text"]
+    ctx.cov["exercised_only"] = ["rendering: slugs, line-number gutter",
+                                 "C17_cell_unwrap_statement (lines joined by one space = the enumeration when no chunk exceeds the first line)"]
     finish_tie(ctx)
     return core.finish(ctx)
 
@@ -193,6 +302,17 @@ def run(ctx):
 def replay(ctx, path):
     core.import_repo()
     obj = json.load(open(path, encoding="utf-8"))
+    if obj.get("kind") == "cell":
+        drv = core.Driver()
+        width = obj.get("width", 30)
+        impl = real_cell(width, obj["spans"]) if "width" in obj else obj["impl"]
+        model = drv.call("c17.cell", width=width, spans=obj["spans"])
+        read = drv.call("c17.parse", cell=impl)
+        print("impl :", impl)
+        print("model:", model)
+        print("spec (parseCell of impl):", read, " row spans:", obj["spans"])
+        drv.close()
+        return 0 if (read == obj["spans"] and (impl == model or "width" not in obj)) else 1
     if obj.get("kind") != "report":
         print(obj)
         return 0
